@@ -482,6 +482,8 @@ func genC12(e *emitter, tier string, seed uint64) {
 	if tier != "quick" {
 		n = 15000
 	}
+	// inputs from a previous transaction's outputs (Tx.AddP2PKHInputsFromTx), on a generator of their own
+	genFromTxC12(e, newRng(seed^0xC12F), n/2)
 	utxo := func(sats int, bad bool) string {
 		txid := r.bytes(32)
 		if bad {
